@@ -519,6 +519,23 @@ def probe_ctx():
     return out
 
 
+def _fake_runner(P, futs, on_consume=None, on_wait=None):
+    """A ProcessRunner that was never initialised (no managers, no executor): just the attributes wait() works on."""
+    class ProbeRunner(P.ForkProcessRunner):
+        pass
+    r = object.__new__(ProbeRunner)
+    r.future_to_task = dict(futs)
+    r.results_map = {}
+    r._consume_log_queue = on_consume or (lambda: None)
+
+    def ex_wait(fs, timeout_seconds=None):
+        if on_wait:
+            on_wait()
+        return [f for f, _ in futs], []
+    r.executor = SimpleNamespace(wait=ex_wait)
+    return r
+
+
 def probe_log():
     """flush mode of LoggerFileProxy; captured output handed over before the worker function returns; the log queue
     consumed between the executor's wait and the first yielded completion."""
@@ -579,10 +596,8 @@ def probe_log():
         f1, f2 = P.Future(), P.Future()
         f1.set_result(SimpleNamespace(meta='m1'))
         f2.set_result(SimpleNamespace(meta='m2'))
-        fake = SimpleNamespace(future_to_task={f1: 't1', f2: 't2'}, results_map={},
-                               _consume_log_queue=lambda: ev.append('consume'),
-                               executor=SimpleNamespace(wait=lambda futs, timeout_seconds=None: (ev.append('exec_wait'), ([f1, f2], []))[1]))
-        gen = P.ProcessRunner.wait(fake, timeout_seconds=0)
+        fake = _fake_runner(P, [(f1, 't1'), (f2, 't2')], on_consume=lambda: ev.append('consume'), on_wait=lambda: ev.append('exec_wait'))
+        gen = fake.wait(timeout_seconds=0)
         first = next(gen)
         if first == ('t1', 'm1') and 'exec_wait' in ev and 'consume' in ev[ev.index('exec_wait') + 1:]:
             out['ca'] = 'true'
@@ -598,26 +613,25 @@ def probe_gen():
     import labtech.runners.process as P
     try:
         def fake(futs):
-            return SimpleNamespace(future_to_task=dict(futs), results_map={}, _consume_log_queue=lambda: None,
-                                   executor=SimpleNamespace(wait=lambda fs, timeout_seconds=None: ([f for f, _ in futs], [])))
+            return _fake_runner(P, futs)
         fs = [P.Future() for _ in range(3)]
         for i, f in enumerate(fs):
             f.set_result(SimpleNamespace(meta='m%d' % i))
         fk = fake([(f, 't%d' % i) for i, f in enumerate(fs)])
-        gen = P.ProcessRunner.wait(fk, timeout_seconds=0)
+        gen = fk.wait(timeout_seconds=0)
         first = next(gen)
         gen.close()
         left = sorted(fk.future_to_task.values())
         gone = P.Future()
         gone.cancel()
         fk2 = fake([(fs[0], 't0'), (gone, 'tc'), (fs[1], 't1'), (fs[2], 't2')])
-        full = list(P.ProcessRunner.wait(fk2, timeout_seconds=0))
+        full = list(fk2.wait(timeout_seconds=0))
         ok_full = full == [('t0', 'm0'), ('t1', 'm1'), ('t2', 'm2')] and not fk2.future_to_task
         ki = P.Future()
         ki.set_exception(KeyboardInterrupt())
         fk3 = fake([(ki, 'tk')])
         try:
-            list(P.ProcessRunner.wait(fk3, timeout_seconds=0))
+            list(fk3.wait(timeout_seconds=0))
             ki_through = False
         except KeyboardInterrupt:
             ki_through = True
@@ -751,3 +765,56 @@ def probe_interrupt_handlers():
     except BaseException:
         pass
     return drain, stop, stopcancel
+
+
+# ------------------------------------------------------------------ all probes, as a program
+
+def _limited(fn, seconds=20):
+    """Run one probe; None-valued answer if it raises or does not finish (a change under test may make anything hang)."""
+    import signal
+
+    class Expired(BaseException):
+        pass
+
+    def on_alarm(signum, frame):
+        raise Expired()
+    old = signal.signal(signal.SIGALRM, on_alarm)
+    signal.alarm(seconds)
+    try:
+        return fn()
+    except BaseException:
+        return None
+    finally:
+        signal.alarm(0)
+        signal.signal(signal.SIGALRM, old)
+
+
+def all_probes():
+    out = {}
+    r = _limited(probe_ready) or (None, None)
+    out['p_cmp'], out['p_dep_guard'] = r
+    out['p_missing'] = _limited(probe_missing)
+    out['p_final'] = _limited(probe_final)
+    r = _limited(probe_exec) or (None, None, None)
+    out['start'], out['ctor'], out['wait'] = r
+    out.update(_limited(probe_storage) or {})
+    r = _limited(probe_cache) or (None, None)
+    out['order'], out['cleanup'] = r
+    out.update(_limited(probe_values) or {})
+    out.update(_limited(probe_ctx, 60) or {})
+    out.update(_limited(probe_log) or {})
+    out['gen'] = _limited(probe_gen)
+    out['bound'] = _limited(probe_bound)
+    r = _limited(probe_interrupt_handlers) or (None, None, None)
+    out['drain'], out['stop'], out['stopcancel'] = r
+    return out
+
+
+if __name__ == '__main__':
+    import json
+    import sys
+    res = all_probes()
+    with open(sys.argv[1] + '.part', 'w') as f:
+        json.dump(res, f)
+    os.replace(sys.argv[1] + '.part', sys.argv[1])
+    os._exit(0)
